@@ -9,9 +9,11 @@ blank lines, empty elements; hostile text; the W-core generator; repo fixtures.
 """
 from __future__ import annotations
 
+import zlib
+
 import os
 
-from .. import common, drive, gen, hostile, invariants
+from .. import render, common, drive, gen, hostile, invariants
 from ..model import Form, Row
 
 PROP = "C15"
@@ -53,6 +55,7 @@ def shape_form(rng, i):
             Row("q", "text", "q5x", {"label": "in"}),
         ]),
         Row("q", "note", "q6", {"label": shapes[2], "image": "a.png"}),
+        Row("q", "text", "q_off", {"label": "switched off", "disabled": "yes"}), Row("q", "text", "q_on", {"label": "not off", "disabled": "no"}),
         # media file names built from an answer: mixed text-and-output content inside <value form="image|audio|video|big-image">
         Row("q", "note", "q7", {"label": "M", rng.choice(["image", "audio", "video"]): rng.choice(["pic_${a}.png", "${a}.mp3", "clips/${b}_${c}.mp4", "x ${a}"]),
                                 "big-image::en" if False else "image::fr": "fr_${a}.png"}),
@@ -99,8 +102,17 @@ def compare_typed(ctx, rng, i):
 
 def compare(ctx, form, klass, sig, fmt="dict", detail=None):
     rk = {"raw": True} if fmt == "dict" else None  # raw: the dict renderer must not normalise NBSP & co. away
-    a = drive.convert_form(form, fmt=fmt, pretty=False, render_kw=rk)
-    b = drive.convert_form(form, fmt=fmt, pretty=True, render_kw=rk)
+    if fmt == "dict" and zlib.crc32(sig.encode()) % 3 == 0:
+        # one workbook dict, both layouts asked for in turn (what a caller comparing the layouts does), in either order
+        wb_ = render.render(form.to_sheets(), "dict", raw=True)
+        first_pretty = zlib.crc32(sig.encode()) % 2 == 0
+        x_ = drive.call_convert(wb_, pretty_print=first_pretty, **form.args)
+        y_ = drive.call_convert(wb_, pretty_print=not first_pretty, **form.args)
+        a, b = (y_, x_) if first_pretty else (x_, y_)
+        ctx.ctr("same_workbook_object_pairs")
+    else:
+        a = drive.convert_form(form, fmt=fmt, pretty=False, render_kw=rk)
+        b = drive.convert_form(form, fmt=fmt, pretty=True, render_kw=rk)
     if not (a.ok and b.ok):
         ctx.ctr(f"rejected:{klass}")
         if a.ok != b.ok:
